@@ -54,7 +54,7 @@ package actor
 // lock was acquired: every critical section is one atomic transition of the
 // abstract map.
 
-//@ private H$actor.Registry, H$actor.process, H$actor.Context, H$actor.Inbox, H$actor.Engine, H$actor.PID
+//@ private H$actor.Registry, H$actor.process, H$actor.Context, H$actor.Inbox, H$actor.Engine, H$actor.PID, E$S$actor.Envelope, E$Ref
 
 //@ guarded Registry(r) by mu footprint r.lookup, mapof(r.lookup)
 //@ lockinv[C10.inv] r.lookup != nil
@@ -182,7 +182,7 @@ package actor
 //@ ghost var curproc Ref as *process
 //@ ghost var phase Int
 
-//@ pred procInv(p) := p != nil && p.context != nil && p.context.engine != nil && p.context.engine.Registry != nil && p.context.engine.Registry.engine != nil &&
+//@ pred procInv(p) := p != nil && p.Opts.Producer != nil && p.context != nil && p.context.engine != nil && p.context.engine.Registry != nil && p.context.engine.Registry.engine != nil &&
 //@      !isnil(p.inbox) && p.context.children != nil && p.pid != nil && p.context.pid == p.pid &&
 //@      forall(k, 0 <= k && k < len(p.Opts.Middleware) ==> p.Opts.Middleware[k] != nil)
 //@ pred throughChain(fnv, c) := c == curproc.context && fnv == chainOf(boundmethod(c.receiver, "Receive"), curproc.Opts.Middleware)
@@ -197,13 +197,14 @@ package actor
 //@   requires[C07.pill.private] !istype(c.message, poisonPill)
 //@   requires[C04.protocol.initialized-first] istype(c.message, Initialized) ==> phase == 0
 //@   requires[C04.protocol.started-second] istype(c.message, Started) ==> phase == 1
-//@   requires[C04.protocol.stopped-once] istype(c.message, Stopped) ==> phase == 1 || phase == 2
+//@   requires[C04.protocol.stopped-once] istype(c.message, Stopped) && !afterCrash ==> phase == 1 || phase == 2
+//@   requires[C04.protocol.stopped-once@max-restarts-exceeded] istype(c.message, Stopped) && afterCrash ==> phase == 1 || phase == 2
 //@   requires[C04.protocol.user-after-started] !isLifecycle(c.message) ==> phase == 2
 //@   modifies heap except private, phase
 //@   maypanic
 //@   emits Deliver(self, c, c.message, c.sender)
 //@   ensures phase == phaseAfter(c.message, old(phase))
-//@   ensures_panic phase == phaseAfter(c.message, old(phase)) && !istype(c.message, Stopped)
+//@   ensures_panic phase == phaseAfter(c.message, old(phase)) && !istype(c.message, Stopped) && !(istype(panicval, *InternalError) && panicval.(*InternalError) == nil)
 
 //@ func (Receiver).Receive(c)
 //@   abstract
@@ -211,13 +212,14 @@ package actor
 //@   requires[C07.pill.private] !istype(c.message, poisonPill)
 //@   requires[C04.protocol.initialized-first] istype(c.message, Initialized) ==> phase == 0
 //@   requires[C04.protocol.started-second] istype(c.message, Started) ==> phase == 1
-//@   requires[C04.protocol.stopped-once] istype(c.message, Stopped) ==> phase == 1 || phase == 2
+//@   requires[C04.protocol.stopped-once] istype(c.message, Stopped) && !afterCrash ==> phase == 1 || phase == 2
+//@   requires[C04.protocol.stopped-once@max-restarts-exceeded] istype(c.message, Stopped) && afterCrash ==> phase == 1 || phase == 2
 //@   requires[C04.protocol.user-after-started] !isLifecycle(c.message) ==> phase == 2
 //@   modifies heap except private, phase
 //@   maypanic
 //@   emits Deliver(boundmethod(self, "Receive"), c, c.message, c.sender)
 //@   ensures phase == phaseAfter(c.message, old(phase))
-//@   ensures_panic phase == phaseAfter(c.message, old(phase)) && !istype(c.message, Stopped)
+//@   ensures_panic phase == phaseAfter(c.message, old(phase)) && !istype(c.message, Stopped) && !(istype(panicval, *InternalError) && panicval.(*InternalError) == nil)
 
 // The producer: user code returning a fresh receiver (assumed non-nil, not to
 // panic). A new incarnation may only be produced when the previous one is gone.
@@ -233,7 +235,6 @@ package actor
 
 //@ func (Inboxer).Start(proc)
 //@   abstract
-//@   requires[C04.inbox.opened-only-for-live-actor] phase == 2
 //@   modifies
 //@   emits InboxStart(self, proc)
 
@@ -261,7 +262,7 @@ package actor
 //@ func (*process).cleanup(cancel)
 //@   props C06 C07 C13 C04 C08 C10 C12
 //@   requires procInv(p) && curproc == p && !isnil(p.context.receiver)
-//@   requires[C04.cleanup.live] phase == 1 || phase == 2
+//@   requires[C04.cleanup.live] phase == 1 || phase == 2 || (phase == 3 && afterCrash)
 //@   nopanic[C06.cleanup.nopanic]
 //@   modifies heap except private, p.context.message, phase, log, loglen
 //@   ghost at entry: lb = 0; log0 = log
@@ -286,3 +287,126 @@ package actor
 //@     invariant forall(k, entry(loglen) <= k && k < lb ==> isev(log0[k], ChildUnlink))
 //@     invariant forall(k, lb <= k && k < loglen ==> isev(log[k], PoisonSent) || isev(log[k], Waited))
 //@     invariant forall(k, 0 <= k && k <= rangeindex ==> isev(log[lb + 2*k], PoisonSent) && log[lb + 2*k].PoisonSent_pid == children[k] && log[lb + 2*k + 1] == Waited(ctxdone(log[lb + 2*k].PoisonSent_ctx)))
+
+// afterCrash: set (ghost) on the one path where cleanup runs although the
+// current incarnation was already told Stopped by a recover handler (restart
+// budget exhausted). It carves the known double-Stopped defect out of
+// C04.protocol.stopped-once so that any other second Stopped is still reported.
+//@ ghost var afterCrash Bool
+
+//@ pred mbufOK(p) := forall(k, 0 <= k && k < len(p.mbuffer) ==> !isLifecycle(p.mbuffer[k].Msg))
+//@ pred budgetInv(p) := 0 <= p.restarts && p.restarts <= p.Opts.MaxRestarts
+
+//@ func cleanTrace(stack)
+//@   trusted
+//@   pure
+
+//@ func (*process).tryRestart(v)
+//@   props C05 C06 C04 C12
+//@   requires procInv(p) && curproc == p && !isnil(p.context.receiver) && budgetInv(p) && !afterCrash && mbufOK(p)
+//@   requires !(istype(v, *InternalError) && v.(*InternalError) == nil)
+//@   requires[C05.restart.failed-incarnation-stopped] phase == 3
+//@   nopanic[C05.tryrestart.nopanic]
+//@   modifies heap except private, p.context.receiver, p.context.message, p.context.sender, p.mbuffer, p.restarts, phase, log, loglen, afterCrash
+//@   ghost at call cleanup#1 before: afterCrash = true
+//@   ghost at call Start#2 before: assert[C05.restart.counted] p.restarts == entry(p.restarts) + 1
+//@   ghost at call Start#2 before: assert[C12.restart.event] loglen == entry(loglen) + 1 && isev(log[entry(loglen)], Broadcast) && log[entry(loglen)].Broadcast_e == p.context.engine && istype(log[entry(loglen)].Broadcast_msg, ActorRestartedEvent) &&
+//@        log[entry(loglen)].Broadcast_msg.(ActorRestartedEvent).PID == p.pid && log[entry(loglen)].Broadcast_msg.(ActorRestartedEvent).Restarts == p.restarts && log[entry(loglen)].Broadcast_msg.(ActorRestartedEvent).Reason == v
+//@   ensures[C06.budget.bounded] budgetInv(p)
+//@   ensures[C06.budget.restart-only-within] entry(p.restarts) == p.Opts.MaxRestarts && !istype(v, *InternalError) ==> p.restarts == entry(p.restarts) && forall(k, entry(loglen) <= k && k < loglen ==> !isev(log[k], Produce) && !isev(log[k], InboxStart))
+//@   ensures[C06.exhaust.event] entry(p.restarts) == p.Opts.MaxRestarts && !istype(v, *InternalError) ==> isev(log[entry(loglen)], Broadcast) && log[entry(loglen)].Broadcast_e == p.context.engine &&
+//@        istype(log[entry(loglen)].Broadcast_msg, ActorMaxRestartsExceededEvent) && log[entry(loglen)].Broadcast_msg.(ActorMaxRestartsExceededEvent).PID == p.pid
+//@   ensures[C06.exhaust.stopped-unregistered] entry(p.restarts) == p.Opts.MaxRestarts && !istype(v, *InternalError) ==> phase == 3 && log[loglen - 3] == RegRemove(p.context.engine.Registry, p.pid.ID) && log[loglen - 4] == InboxStop(p.inbox)
+//@   ensures[C04.tryrestart.phase] phase == 2 || phase == 3
+//@   ensures phase == 2 ==> !afterCrash
+//@   ensures !isnil(p.context.receiver) && procInv(p)
+//@   ensures[C04.tryrestart.log-prefix] loglen >= entry(loglen) && forall(k, 0 <= k && k < entry(loglen) ==> log[k] == entry(log)[k])
+
+//@ func (*process).Start()
+//@   props C04 C05 C13 C12
+//@   requires procInv(p) && curproc == p && budgetInv(p) && !afterCrash && mbufOK(p)
+//@   requires[C04.start.no-live-incarnation] phase == 3
+//@   nopanic[C05.start.nopanic]
+//@   modifies heap except private, p.context.receiver, p.context.message, p.context.sender, p.mbuffer, p.restarts, phase, log, loglen, afterCrash
+//@   ghost at entry: replayed = false
+//@   ghost at call Invoke#1: replayed = true
+//@   ghost at call Start#1 before: assert[C04.inbox.opened-only-for-live-actor] !replayed ==> phase == 2
+//@   ghost at call Start#1 before: assert[C04.inbox.opened-only-for-live-actor@after-replay] replayed ==> phase == 2
+//@   ensures[C04.start.phase] phase == 2 || phase == 3
+//@   ensures phase == 2 ==> !afterCrash
+//@   ensures[C06.budget.bounded] budgetInv(p)
+//@   ensures !isnil(p.context.receiver) && procInv(p)
+//@   ensures[C04.start.produce-first] loglen > entry(loglen) && log[entry(loglen)] == Produce(p)
+//@   ensures[C04.start.log-prefix] forall(k, 0 <= k && k < entry(loglen) ==> log[k] == entry(log)[k])
+
+//@ func (*process).Start$1()
+//@   inline
+
+//@ pred isPill(m) := istype(m, poisonPill)
+//@ pred deliveryOf(p, m, snd) := Deliver(chainOf(boundmethod(p.context.receiver, "Receive"), p.Opts.Middleware), p.context, m, snd)
+
+//@ func (*process).invokeMsg(msg)
+//@   props C01 C13 C07
+//@   requires procInv(p) && curproc == p && !isnil(p.context.receiver) && !afterCrash
+//@   requires[C04.invokemsg.started] !isPill(msg.Msg) ==> phase == 2
+//@   requires !isLifecycle(msg.Msg)
+//@   maypanic
+//@   modifies heap except private, p.context.message, p.context.sender, phase
+//@   emits deliveryOf(p, msg.Msg, msg.Sender) if !isPill(msg.Msg)
+//@   ensures[C01.invokemsg.context] !isPill(msg.Msg) ==> phase == 2
+//@   ensures isPill(msg.Msg) ==> phase == old(phase) && p.context.message == old(p.context.message) && p.context.sender == old(p.context.sender)
+//@   ensures_panic !isPill(msg.Msg) && phase == 2 && !(istype(panicval, *InternalError) && panicval.(*InternalError) == nil)
+//@   ghost at call applyMiddleware()#1 before: assert[C01.invokemsg.context] p.context.message == msg.Msg && p.context.sender == msg.Sender
+//@   ghost at call Receive#1 before: assert[C01.invokemsg.context] p.context.message == msg.Msg && p.context.sender == msg.Sender
+
+//@ func (*process).Invoke(msgs)
+//@   props C01 C05 C07 C04 C13 C06
+//@   requires procInv(p) && curproc == p && !isnil(p.context.receiver) && budgetInv(p) && !afterCrash
+//@   requires[C04.invoke.started] phase == 2
+//@   requires forall(k, 0 <= k && k < len(msgs) ==> !isLifecycle(msgs[k].Msg))
+//@   nopanic[C05.invoke.nopanic]
+//@   modifies heap except private, p.context.receiver, p.context.message, p.context.sender, p.mbuffer, p.restarts, phase, log, loglen, afterCrash
+//@   ensures[C04.invoke.phase] phase == 2 || phase == 3
+//@   ensures phase == 2 ==> !afterCrash
+//@   ensures[C06.budget.bounded] budgetInv(p)
+//@   ensures !isnil(p.context.receiver) && procInv(p)
+//@   ensures[C04.invoke.log-prefix] loglen >= entry(loglen) && forall(k, 0 <= k && k < entry(loglen) ==> log[k] == entry(log)[k])
+//@   ghost at entry: inDrain = false; drainIdx = 0
+//@   ghost at call invokeMsg#2 before: inDrain = true; drainIdx = processed + rangeindex
+//@   ghost at return#2: assert[C01.invoke.order] loglen == entry(loglen) + len(msgs) && forall(k, 0 <= k && k < len(msgs) ==> log[entry(loglen) + k] == deliveryOf(p, msgs[k].Msg, msgs[k].Sender))
+//@   ghost at call cleanup#1 before: assert[C07.pill.messages-before-it-first] loglen >= entry(loglen) + i && forall(k, 0 <= k && k < i ==> log[entry(loglen) + k] == deliveryOf(p, msgs[k].Msg, msgs[k].Sender))
+//@   ghost at call cleanup#1 before: assert[C07.stop.immediate] !pill.graceful ==> loglen == entry(loglen) + i
+//@   ghost at call cleanup#1 before: assert[C07.pill.every-cancel@later-pill-in-batch] forall(k, i < k && k < len(msgs) ==> !isPill(msgs[k].Msg))
+//@   ghost at return#3: assert[C07.pill.cancelled-last] pill.cancel != nil ==> log[loglen - 1] == Cancel(pill.cancel)
+//@   ghost at return#3: assert[C07.pill.stopped-unregistered-before-cancel] phase == 3 && log[loglen - ite(pill.cancel != nil, 1, 0) - 3] == RegRemove(p.context.engine.Registry, p.pid.ID) &&
+//@        isev(log[loglen - ite(pill.cancel != nil, 1, 0) - 2], Deliver) && istype(log[loglen - ite(pill.cancel != nil, 1, 0) - 2].Deliver_msg, Stopped)
+//@   loop 1
+//@     invariant 0 <= i && i <= len(msgs) && nproc == i && processed == i && nmsg == len(msgs)
+//@     invariant phase == 2 && !afterCrash && procInv(p) && curproc == p && !isnil(p.context.receiver) && budgetInv(p) && p.context.receiver == old(p.context.receiver)
+//@     invariant forall(k, 0 <= k && k < len(msgs) ==> msgs[k] == old(msgs[k]))
+//@     invariant loglen == entry(loglen) + i
+//@     invariant forall(k, 0 <= k && k < i ==> log[entry(loglen) + k] == deliveryOf(p, msgs[k].Msg, msgs[k].Sender))
+//@     invariant forall(k, 0 <= k && k < entry(loglen) ==> log[k] == entry(log)[k])
+//@     invariant forall(k, 0 <= k && k < i ==> !isPill(msgs[k].Msg))
+//@     modifies p.context.message, p.context.sender, p.context.receiver, p.mbuffer, p.restarts, none(E$S$actor.Envelope)
+//@   loop 2
+//@     invariant rangeindex >= -1 && rangeindex < len(msgsToProcess) && len(msgsToProcess) == len(msgs) - processed && msgsToProcess.arr == msgs.arr && msgsToProcess.off == msgs.off + processed
+//@     invariant 0 <= i && i < len(msgs) && nproc == i + 1 && processed == i && nmsg == len(msgs) && isPill(msgs[i].Msg) && msg == msgs[i] && pill == msg.Msg.(poisonPill)
+//@     invariant phase == 2 && !afterCrash && procInv(p) && curproc == p && !isnil(p.context.receiver) && budgetInv(p) && p.context.receiver == old(p.context.receiver)
+//@     invariant forall(k, 0 <= k && k < len(msgs) ==> msgs[k] == old(msgs[k]))
+//@     invariant loglen >= entry(loglen) + i
+//@     invariant forall(k, 0 <= k && k < i ==> log[entry(loglen) + k] == deliveryOf(p, msgs[k].Msg, msgs[k].Sender))
+//@     invariant forall(k, 0 <= k && k < entry(loglen) ==> log[k] == entry(log)[k])
+//@     invariant forall(j, 0 <= j && j < len(msgsToProcess) ==> msgsToProcess[j] == msgs[processed + j])
+//@     modifies p.context.message, p.context.sender, p.context.receiver, p.mbuffer, p.restarts, none(E$S$actor.Envelope)
+
+//@ func (*process).Invoke$1()
+//@   inline
+//@   ghost at call tryRestart#1 before: assert[C05.crash.buffer] len(p.mbuffer) == nmsg - nproc && forall(j, 0 <= j && j < nmsg - nproc ==> p.mbuffer[j] == msgs[nproc + j])
+//@   ghost at call tryRestart#1 before: assert[C05.crash.failed-not-redelivered] !inDrain ==> loglen == entry(loglen) + nproc + 1 && forall(k, 0 <= k && k < nproc ==> log[entry(loglen) + k] == deliveryOf(p, msgs[k].Msg, msgs[k].Sender))
+//@   ghost at call tryRestart#1 before: assert[C05.crash.failed-not-redelivered@while-draining-behind-pill] inDrain ==> nproc == drainIdx + 1
+//@   ghost at call tryRestart#1 before: assert[C05.crash.stopped-to-failed] phase == 3 && isev(log[loglen - 1], Deliver) && log[loglen - 1].Deliver_ctx == p.context && istype(log[loglen - 1].Deliver_msg, Stopped)
+//@   loop 1
+//@     invariant 0 <= i && i <= nmsg - nproc && len(p.mbuffer) == nmsg - nproc && fresh(p.mbuffer) && p.mbuffer.off == 0
+//@     invariant forall(j, 0 <= j && j < i ==> p.mbuffer[j] == msgs[j + nproc])
+//@     modifies elements(p.mbuffer)
